@@ -3,6 +3,7 @@ package main
 import (
 	"fmt"
 	"go/constant"
+	"go/token"
 	"strings"
 
 	"golang.org/x/tools/go/ssa"
@@ -197,4 +198,56 @@ func depOrderTotalRule(r *Report, p *Prog, rule string) {
 	} else {
 		r.ok(rule, key, p.pos(cmp.Pos()), "reads the name, the type and the requirement string of its operands")
 	}
+}
+
+// sentinelComparedRule (C18.i, consumer side): the clients wrap ErrNotFound
+// (fmt.Errorf("...: %w", ErrNotFound)), and so do the helpers between a client
+// and a resolver. A consumer that tests `err == ErrNotFound` therefore never
+// sees it; errors.Is is the only test that does. No == or != comparison has
+// the sentinel as an operand anywhere in the resolvers and clients.
+func sentinelComparedRule(r *Report, p *Prog, rule, sentinel string) int {
+	n := 0
+	for _, f := range p.Funcs {
+		if !p.inScope(f) || f.Blocks == nil || f.Synthetic != "" {
+			continue
+		}
+		per := 0
+		for _, b := range f.Blocks {
+			for _, in := range b.Instrs {
+				switch x := in.(type) {
+				case *ssa.Call:
+					// errors.Is(err, ErrNotFound): a correct use
+					if staticCalleeName(x) == "errors.Is" && len(x.Common().Args) == 2 && loadsGlobal(x.Common().Args[1], sentinel) {
+						n++
+						per++
+						r.ok(rule, fmt.Sprintf("%s: test #%d for %s", fnKey(f), per, sentinel), p.pos(x.Pos()), "errors.Is")
+					}
+				case *ssa.BinOp:
+					if (x.Op == token.EQL || x.Op == token.NEQ) && (loadsGlobal(x.X, sentinel) || loadsGlobal(x.Y, sentinel)) {
+						n++
+						per++
+						r.bad(rule, fmt.Sprintf("%s: test #%d for %s", fnKey(f), per, sentinel), p.pos(x.Pos()), "the error is compared with "+sentinel+" by "+x.Op.String()+", but every producer wraps the sentinel (fmt.Errorf with %w), so the comparison is never true: the branch written for a missing version is dead and the error aborts the resolution instead (the npm resolver uses errors.Is)")
+					}
+				}
+			}
+		}
+	}
+	return n
+}
+
+func loadsGlobal(v ssa.Value, name string) bool {
+	for d := 0; d < 4 && v != nil; d++ {
+		switch x := v.(type) {
+		case *ssa.MakeInterface:
+			v = x.X
+		case *ssa.ChangeInterface:
+			v = x.X
+		case *ssa.UnOp:
+			g, ok := x.X.(*ssa.Global)
+			return ok && g.Name() == name
+		default:
+			return false
+		}
+	}
+	return false
 }
